@@ -26,6 +26,9 @@ pub struct CheckArgs {
     pub minimise_budget: Duration,
     /// directory with hand-written cases (`<property>-*.json`) evaluated before the seeded batch
     pub directed: PathBuf,
+    /// the real, unhooked CLI built from /repo's working tree (fidelity tier; never gating)
+    pub real_bin: Option<PathBuf>,
+    pub fidelity_cases: u64,
 }
 
 pub fn scratch_base() -> PathBuf {
@@ -173,6 +176,87 @@ pub fn replay_cmd(path: &Path) -> i32 {
             0
         }
     }
+}
+
+// ------------------------------------------------------------------------------------------------
+// fidelity tier: the simulated system against the real, unhooked binary (observes executions whose
+// scheduling is not controlled, so it decides nothing and never changes the exit code)
+// ------------------------------------------------------------------------------------------------
+
+pub struct Fidelity {
+    pub compared: u64,
+    pub agreed: u64,
+    pub mismatches: Vec<String>,
+}
+
+pub fn fidelity(property: &str, seed: u64, tier: Tier, n: u64, real_bin: &Path, base: &Path) -> Fidelity {
+    use super::exec::{argv_for, run_invocation, snapshot, ResultClass, Scratch};
+    let mut f = Fidelity { compared: 0, agreed: 0, mismatches: vec![] };
+    let mut sc = Scratch::new(base, "fidelity");
+    for i in 0..n {
+        let case = gen_case(property, run_seed(seed, property, i), tier);
+        let Some(op) = case.ops.first() else { continue };
+        let mut inv = op.clone();
+        inv.faults.clear();
+        inv.fresh_out = true;
+        inv.src_age = 0;
+        inv.knobs = crate::ctx::Knobs::shipped();
+        if inv.out_sub == super::exec::BARE {
+            inv.out_sub.clear();
+        }
+        let tree = &case.versions[inv.version.min(case.versions.len() - 1)];
+        let out = sc.out();
+        let sim = run_invocation(&mut sc, tree, &inv, &out);
+        if !matches!(sim.class, ResultClass::Ok | ResultClass::Err) {
+            continue;
+        }
+        // the real binary, same arguments, its own output location
+        let real_out = sc.refout();
+        sc.clear_dir(&real_out);
+        let cfg_path = sc.root.join("typeshare.toml");
+        let argv = argv_for(&inv, &sc.ws(), &real_out, &cfg_path);
+        let mut cmd = std::process::Command::new(real_bin);
+        cmd.args(&argv[1..]).stdout(std::process::Stdio::null()).stderr(std::process::Stdio::null()).env("RUST_LOG", "off");
+        let Ok(mut child) = cmd.spawn() else {
+            f.mismatches.push("cannot start the real binary".into());
+            break;
+        };
+        let t0 = Instant::now();
+        let status = loop {
+            match child.try_wait() {
+                Ok(Some(st)) => break Some(st),
+                Ok(None) if t0.elapsed() > Duration::from_secs(20) => {
+                    let _ = child.kill();
+                    let _ = child.wait();
+                    break None;
+                }
+                Ok(None) => std::thread::sleep(Duration::from_millis(2)),
+                Err(_) => break None,
+            }
+        };
+        f.compared += 1;
+        let real_ok = status.map(|s| s.success());
+        let sim_ok = sim.class == ResultClass::Ok;
+        let real_files: BTreeMap<String, Vec<u8>> = snapshot(&real_out).into_iter().filter(|(k, _)| !k.ends_with('/')).map(|(k, v)| (k, v.bytes)).collect();
+        let agree = match real_ok {
+            None => false,
+            Some(ok) => ok == sim_ok && (!ok || real_files == sim.out_bytes()),
+        };
+        if agree {
+            f.agreed += 1;
+        } else if f.mismatches.len() < 10 {
+            f.mismatches.push(format!(
+                "run index {i}: simulator {:?} ({} files) vs real binary {:?} ({} files) [{} {:?}]",
+                sim.class,
+                sim.out_bytes().len(),
+                status.map(|s| s.code()),
+                real_files.len(),
+                inv.lang,
+                inv.mode
+            ));
+        }
+    }
+    f
 }
 
 // ------------------------------------------------------------------------------------------------
@@ -440,6 +524,18 @@ pub fn check(a: &CheckArgs) -> i32 {
         reported.insert(sig, (path, vf, shipped));
     }
 
+    // 5b. fidelity tier (never gating)
+    let fid = match &a.real_bin {
+        Some(bin) if a.fidelity_cases > 0 => Some(fidelity(&a.property, a.seed, a.tier, a.fidelity_cases, bin, &base)),
+        _ => None,
+    };
+    if let Some(f) = &fid {
+        for m in &f.mismatches {
+            println!("WARNING fidelity mismatch: {m}");
+        }
+        println!("fidelity: {} of {} fault-free invocations agree with the real binary (exit status and output bytes)", f.agreed, f.compared);
+    }
+
     // 6. evidence
     let wall = t0.elapsed().as_secs_f64();
     let st = &sh.stats;
@@ -463,6 +559,11 @@ pub fn check(a: &CheckArgs) -> i32 {
             "rule": "evaluations = simulated CLI invocations (real typeshare-cli code under the simulator, one fresh OS thread each). A case is generated from run_seed(VERIF_SEED, property, i); distinct_nontrivial counts distinct (source-tree digest, knobs, hash seed, fault plan, mode, language, extra args, recorded-schedule digest) tuples whose invocation was non-trivial: at least 2 parse results went through the channel, or at least one injected fault fired, or the invocation belongs to a history of 2 or more operations.",
             "samples": sh.samples,
             "exhaustive": false,
+            "traces_validated_against_impl": fid.as_ref().map(|f| f.agreed).unwrap_or(0),
+            "fidelity": match &fid {
+                Some(f) => json!({"compared_with_real_binary": f.compared, "agreed": f.agreed, "mismatches": f.mismatches}),
+                None => json!("not run in this tier (thorough tier only)"),
+            },
             "simulated_cases": st.cases,
             "generator_rejects": st.rejects,
             "reference_invocations": st.reference_invocations,
